@@ -35,6 +35,13 @@ at the top-level directory.
 
 #include "slu_ddefs.h"
 
+#ifdef SLU_VERIF
+extern void (*slu_verif_coldfs_hook)(int phase, int m, int n, int jcol, const int *perm_r, int nseg,
+				     const int *lsub_col, const int *segrep, const int *repfnz,
+				     const int_t *xprune, const int *marker, const int *parent,
+				     const int_t *xplore, const void *Glu, int info);
+#endif
+
 /*! \brief
  *
  * <pre>
@@ -371,9 +378,19 @@ dgstrf (superlu_options_t *options, SuperMatrix *A,
 
 		nseg = nseg1;	/* Begin after all the panel segments */
 
+#ifdef SLU_VERIF
+		if ( slu_verif_coldfs_hook )
+		    slu_verif_coldfs_hook(0, m, n, jj, perm_r, nseg, &panel_lsub[k], segrep,
+					  &repfnz[k], xprune, marker, parent, xplore, Glu, 0);
+#endif
 	    	if ((*info = dcolumn_dfs(m, jj, perm_r, &nseg, &panel_lsub[k],
 					segrep, &repfnz[k], xprune, marker,
 					parent, xplore, Glu)) != 0) return;
+#ifdef SLU_VERIF
+		if ( slu_verif_coldfs_hook )
+		    slu_verif_coldfs_hook(1, m, n, jj, perm_r, nseg, &panel_lsub[k], segrep,
+					  &repfnz[k], xprune, marker, parent, xplore, Glu, 0);
+#endif
 
 	      	/* Numeric updates */
 	    	if ((*info = dcolumn_bmod(jj, (nseg - nseg1), &dense[k],
